@@ -30,6 +30,9 @@ pub struct Event {
     /// 0 = no promotion, otherwise 1 + `Piece as u8`
     pub promo: u8,
     pub hash: u64,
+    /// for cache events: a fingerprint of (placement, castling rights, en passant target) computed
+    /// independently of the position hash, so that an observer can tell positions apart; otherwise 0
+    pub fingerprint: u64,
     pub depth: u8,
     pub maximizing: bool,
     pub alpha: i16,
@@ -68,6 +71,33 @@ pub fn transient_board(board: &Board) {
     }
 }
 
+/// FNV-style mix of the twelve piece bitboards, the castling rights and the en passant target.
+pub fn fingerprint(board: &Board) -> u64 {
+    use crate::board::color::Color;
+    use crate::board::piece::Piece;
+    let mut h: u64 = 0xcbf2_9ce4_8422_2325;
+    let mut mix = |x: u64| {
+        h ^= x;
+        h = h.wrapping_mul(0x0000_0100_0000_01b3);
+        h ^= h >> 29;
+    };
+    for color in [Color::White, Color::Black] {
+        for piece in [
+            Piece::Pawn,
+            Piece::Knight,
+            Piece::Bishop,
+            Piece::Rook,
+            Piece::Queen,
+            Piece::King,
+        ] {
+            mix(board.pieces(color).locate(piece).0);
+        }
+    }
+    mix(board.peek_castle_rights() as u64);
+    mix(board.peek_en_passant_target().0);
+    h
+}
+
 pub fn promo_code(m: &ChessMove) -> u8 {
     match m {
         ChessMove::PawnPromotion(p) => p.promote_to_piece() as u8 + 1,
@@ -82,6 +112,7 @@ pub fn task_event(kind: Kind, m: &ChessMove, depth: u8, maximizing: bool, value:
         to: m.to_square().0,
         promo: promo_code(m),
         hash: 0,
+        fingerprint: 0,
         depth,
         maximizing,
         alpha: 0,
@@ -105,6 +136,7 @@ pub fn node_event(
         to: 0,
         promo: 0,
         hash: board.current_position_hash(),
+        fingerprint: fingerprint(board),
         depth,
         maximizing,
         alpha: window.0,
